@@ -194,4 +194,4 @@ def check(env, rep, tier):
             rep.ob("C18.2", "%s|store|%d" % (s["fn"], sum(1 for k2, e2 in store_sites.items() if e2["site"]["fn"] == s["fn"] and (e2["site"]["line"], k2) < (s["line"], key))),
                    e["ok"], "store to the error slot at %s:%s in %s can overwrite a recorded error" % (s["file"], s["line"], s["fn"]), s,
                    sample={"rule": "C18.2", "site": "%s:%s" % (s["file"], s["line"]), "fn": s["fn"], "slot_clear_before_store": e["ok"]})
-        rep.floor("C18.2", "stores to the error slot", len(store_sites), 3)
+        rep.floor("C18.2", "stores to the error slot", len(store_sites), 1)
